@@ -1,6 +1,6 @@
 (* C20 correspondence: cases written by harness/cmd/c20 are evaluated here by vm_compute. *)
 From Coq Require Import List ZArith QArith Bool Arith.
-From PF Require Export Tri.Delaunay Tri.BowyerWatson Check.Common.
+From PF Require Export Tri.Delaunay Tri.BowyerWatson Tri.DelaunayChar Check.Common.
 Import ListNotations.
 
 (* points: integer coordinates (unit = the harness's dyadic grid step); tris / pos: what
@@ -11,9 +11,13 @@ Import ListNotations.
    sup = what triangulation.SuperTriangle returned for the same input, in HALF units (the middle
    of the bounding box may be a half integer); attr_lens = the length of every vertex attribute of
    the returned mesh (Position, TexCoord, ...); caller_after = the caller's own point slice as it is
-   after the call (the slice may have spare capacity; pts is the harness' private copy of the input) *)
+   after the call (the slice may have spare capacity; pts is the harness' private copy of the input);
+   gp = the harness (exact integers, its own code) found input ++ super triangle in STRONG general position
+   (no 3 of the n+3 points collinear, no 4 concyclic) and the input is small enough to re-decide that
+   here: then gp_strongb — the decidable hypothesis of the unconditional theorem bw_delaunay — must
+   hold, i.e. on that input the model's output is PROVED to meet the statement *)
 Inductive case :=
-| CTri (use_model need_spec need_cover : bool) (pts : list (Z * Z)) (tris : list (nat * nat * nat))
+| CTri (use_model need_spec need_cover gp : bool) (pts : list (Z * Z)) (tris : list (nat * nat * nat))
        (pos : list (Z * Z * Z)) (sup : list (Z * Z)) (attr_lens : list nat) (caller_after : list (Z * Z)).
 
 Definition qpts (pts : list (Z * Z)) : list pt := map (fun p => (inject_Z (fst p), inject_Z (snd p))) pts.
@@ -37,15 +41,22 @@ Fixpoint sup_okb (m : list pt) (sup : list (Z * Z)) : bool :=
    map order and the rotation of a triple is not an observable the statement talks about), and the
    run of the model meets the hypothesis of bw_delaunay_partial (closed_run, decided by closed_runb)
    on this input — by cavities_from_edge_closure this implies the two cavity facts at every step *)
+Definition mirror (t : tri) : tri := let '(a, b, c) := t in (a, c, b).
+Definition same_trisb (ts tris : list tri) : bool :=
+  (length ts =? length tris)%nat &&
+  forallb (fun t => tri_inb t tris) ts && forallb (fun t => tri_inb t ts) tris.
+
+(* the statement asks for ONE winding for all triangles, not for a particular one: the implementation's set
+   may be the model's (clockwise) set or its mirror image as a whole *)
 Definition corr_ok (c : case) : bool :=
   match c with
-  | CTri m _ _ pts tris _ sup _ _ =>
+  | CTri m _ _ gp pts tris _ sup _ _ =>
       if m then
         match bw (qpts pts) with
-        | Some ts => let ts := map canon ts in let tris := map canon tris in
-                     (length ts =? length tris)%nat &&
-                     forallb (fun t => tri_inb t tris) ts && forallb (fun t => tri_inb t ts) tris &&
-                     closed_runb super_fixed (qpts pts) && sup_okb (super_fixed (qpts pts)) sup
+        | Some ts => let ts := map canon ts in
+                     (same_trisb ts (map canon tris) || same_trisb ts (map (fun t => canon (mirror t)) tris)) &&
+                     closed_runb super_fixed (qpts pts) && sup_okb (super_fixed (qpts pts)) sup &&
+                     (if gp then gp_strongb (qpts pts ++ super_fixed (qpts pts)) else true)
         | None => false
         end
       else true
@@ -73,7 +84,7 @@ Fixpoint same_ptsb (pts after : list (Z * Z)) : bool :=
    the triangle areas add up to the area of the convex hull (exact in Q) *)
 Definition prop_ok (c : case) : bool :=
   match c with
-  | CTri _ spec cover pts tris pos _ alens after =>
+  | CTri _ spec cover _ pts tris pos _ alens after =>
       let q := qpts pts in
       (if spec then pos_okb pts pos && forallb (Nat.eqb (length pts)) alens && same_ptsb pts after &&
                     delaunayb q tris else true) &&
